@@ -80,6 +80,21 @@ def main():
     confirmed = ok0 and suite_ok and (not ok1)
     meta["confirmed"] = confirmed
     print("%s-%s confirmed=%s (demo clean: %s, suite with change: %s, demo with change: %s)" % (prop, i, confirmed, ok0, suite_ok, ok1))
+    if "--confirm-only" in sys.argv:
+        # confirmation in the worktree only (can run in parallel); the checks are run later with --checks-only / seed_regress.py
+        if confirmed:
+            d = os.path.join(VERIF, "seeded", sid)
+            os.makedirs(d, exist_ok=True)
+            shutil.copy(patch, os.path.join(d, "patch.diff"))
+            for f in (demo_rs, demo_sh):
+                if os.path.exists(f):
+                    shutil.copy(f, os.path.join(d, "demo" + os.path.splitext(f)[1]))
+            md = os.path.join(src, "change%s.md" % i)
+            if os.path.exists(md):
+                shutil.copy(md, os.path.join(d, "notes.md"))
+            with open(os.path.join(d, "meta.json"), "w") as f:
+                json.dump(meta, f, indent=1)
+        return
     return_checks(prop, i, patch, meta, confirmed, src, demo_rs, demo_sh, sid)
 
 
